@@ -28,14 +28,18 @@ let h_listing req =
       let file = to_n (field j "file") in
       { em_file = file; em_line = spec_line (src_of file) (to_z (field j "lo")); em_addr = to_z (field j "addr");
         em_bytes = text_of (field j "bytes") }) (to_list (field req "ems")) in
-  let model = List.map (fun n ->
+  (* to_listing once per width; the text is render_listing applied to each file's rows, which is what to_listing_text
+     does (same composition: mapM over the code map in order) *)
+  let results = List.map (fun n -> (n, to_listing cm sm segs (nat_of_int n))) ns in
+  let model = List.map (fun (n, res) ->
+      (string_of_int n, j_res (fun l -> Arr (List.map (fun (name, rows) -> Arr [ jn name; jlist j_row rows ]) l)) res)) results in
+  let text = List.map (fun (n, res) ->
       (string_of_int n,
-       j_res (fun l -> Arr (List.map (fun (name, rows) -> Arr [ jn name; jlist j_row rows ]) l))
-         (to_listing cm sm segs (nat_of_int n)))) ns in
+       j_res (fun l -> Arr (List.map2 (fun f (name, rows) -> Arr [ jn name; jtext (render_listing (nat_of_int n) f rows) ]) cm l)) res)) results in
   let spec = List.map (fun n ->
       (string_of_int n,
        Arr (List.map (fun f -> Arr [ jn f.f_name; jlist j_row (spec_rows (nat_of_int n) (num_lines f) f.f_name ems) ]) cm))) ns in
-  Obj [ ("model", Obj model); ("spec", Obj spec) ]
+  Obj [ ("model", Obj model); ("spec", Obj spec); ("text", Obj text) ]
 
 let h_queries req =
   let cm = List.map file_of (to_list (field req "files")) in
